@@ -1,20 +1,562 @@
 package main
 
 import (
+	"encoding/json"
+	"flag"
 	"fmt"
-	"golang.org/x/tools/go/packages"
-	"golang.org/x/tools/go/ssa"
-	"golang.org/x/tools/go/ssa/ssautil"
+	"os"
+	"path/filepath"
+	"regexp"
+	"sort"
+	"strings"
+	"time"
 )
 
-func main() {
-	cfg := &packages.Config{Mode: packages.LoadSyntax, Dir: "/repo", BuildFlags: []string{"-tags=verif"}}
-	pkgs, err := packages.Load(cfg, "./pkg/koordlet/util/system")
-	if err != nil {
-		panic(err)
+func shortFunc(key string) string {
+	// (*a/b/c.T).M -> c.(*T).M ; a/b/c.F -> c.F
+	if strings.HasPrefix(key, "(") {
+		cl := strings.Index(key, ")")
+		inner := key[1:cl]
+		star := ""
+		if strings.HasPrefix(inner, "*") {
+			star = "*"
+			inner = inner[1:]
+		}
+		pk, tn := inner, ""
+		if i := strings.LastIndex(inner, "."); i >= 0 {
+			pk, tn = inner[:i], inner[i+1:]
+		}
+		return filepath.Base(pk) + ".(" + star + tn + ")" + key[cl+1:]
 	}
-	prog, spkgs := ssautil.Packages(pkgs, ssa.NaiveForm|ssa.GlobalDebug)
-	_ = prog
-	spkgs[0].Build()
-	fmt.Println(spkgs[0].Func("MilliCPUToQuota") != nil)
+	if i := strings.LastIndex(key, "/"); i >= 0 {
+		return key[i+1:]
+	}
+	return key
+}
+
+func contains(xs []string, x string) bool {
+	for _, y := range xs {
+		if y == x {
+			return true
+		}
+	}
+	return false
+}
+
+type propRun struct {
+	prop      string
+	tier      string
+	seed      int
+	repo      string
+	verif     string
+	funcOnly  string
+	dump      bool
+	update    bool
+	verbose   bool
+	quickT    int
+	slowT     int
+}
+
+func main() {
+	if len(os.Args) < 2 {
+		fmt.Fprintln(os.Stderr, "usage: govc check|func ...")
+		os.Exit(2)
+	}
+	switch os.Args[1] {
+	case "check":
+		fs := flag.NewFlagSet("check", flag.ExitOnError)
+		r := &propRun{}
+		fs.StringVar(&r.prop, "prop", "", "property id")
+		fs.StringVar(&r.tier, "tier", "quick", "quick|thorough")
+		fs.IntVar(&r.seed, "seed", 0, "seed")
+		fs.StringVar(&r.repo, "repo", "/repo", "repository")
+		fs.StringVar(&r.verif, "verif", "/verif", "verif dir")
+		fs.StringVar(&r.funcOnly, "func", "", "only functions whose key contains this")
+		fs.BoolVar(&r.dump, "dump", false, "keep SMT files and print failing obligations in detail")
+		fs.BoolVar(&r.update, "update-expect", false, "rewrite the .expect list from the discharged obligations")
+		fs.BoolVar(&r.verbose, "v", false, "verbose")
+		fs.IntVar(&r.quickT, "qt", 10, "first solver timeout (s)")
+		fs.IntVar(&r.slowT, "st", 30, "fallback solver timeout (s)")
+		_ = fs.Parse(os.Args[2:])
+		os.Exit(runCheck(r))
+	default:
+		fmt.Fprintln(os.Stderr, "unknown command", os.Args[1])
+		os.Exit(2)
+	}
+}
+
+type knownFinding struct {
+	Prop  string
+	Oblig string
+	Text  string
+}
+
+var kfRe = regexp.MustCompile(`^finding:\s+property=(C\d\d)\s+obligation=(\S+)\s+(.*)$`)
+
+func readKnownFindings(path string) []knownFinding {
+	data, err := os.ReadFile(path)
+	if err != nil {
+		return nil
+	}
+	var out []knownFinding
+	for _, ln := range strings.Split(string(data), "\n") {
+		if m := kfRe.FindStringSubmatch(strings.TrimSpace(ln)); m != nil {
+			out = append(out, knownFinding{m[1], m[2], m[3]})
+		}
+	}
+	return out
+}
+
+func readExpect(path string) (map[string]bool, bool) {
+	data, err := os.ReadFile(path)
+	if err != nil {
+		return nil, false
+	}
+	out := map[string]bool{}
+	for _, ln := range strings.Split(string(data), "\n") {
+		ln = strings.TrimSpace(ln)
+		if ln == "" || strings.HasPrefix(ln, "#") {
+			continue
+		}
+		out[ln] = true
+	}
+	return out, true
+}
+
+func runCheck(r *propRun) int {
+	t0 := time.Now()
+	eng := NewEngine(r.repo)
+	files, err := findContractFiles(r.repo)
+	if err != nil {
+		fmt.Println("error:", err)
+		return 2
+	}
+	// parse every contract file to find the packages of this property
+	type pf struct {
+		sf  *SpecFile
+		dir string
+	}
+	var parsed []pf
+	for _, f := range files {
+		sf, err := ParseSpecFile(f, "")
+		if err != nil {
+			fmt.Println("contract file error:", err)
+			return failHard(r, fmt.Sprintf("contract file error: %v", err))
+		}
+		rel, _ := filepath.Rel(r.repo, filepath.Dir(f))
+		parsed = append(parsed, pf{sf, rel})
+	}
+	need := map[string]bool{}
+	for _, p := range parsed {
+		for _, c := range p.sf.Contracts {
+			if !c.Extern && contains(c.Props, r.prop) {
+				need[p.dir] = true
+			}
+		}
+		for _, l := range p.sf.Lemmas {
+			if contains(l.Props, r.prop) {
+				need[p.dir] = true
+			}
+		}
+	}
+	// uses: transitive
+	changed := true
+	for changed {
+		changed = false
+		for _, p := range parsed {
+			if !need[p.dir] {
+				continue
+			}
+			for _, u := range p.sf.Uses {
+				if u != "" && !need[u] {
+					need[u] = true
+					changed = true
+				}
+			}
+		}
+	}
+	if len(need) == 0 {
+		return failHard(r, "no contract is tagged with "+r.prop)
+	}
+	var patterns []string
+	for d := range need {
+		patterns = append(patterns, "./"+d)
+	}
+	sort.Strings(patterns)
+	if err := eng.Load(patterns); err != nil {
+		fmt.Println("load error:", err)
+		return failHard(r, "cannot load packages (does the tree build?): "+firstLines(err.Error(), 6))
+	}
+	tLoad := time.Since(t0).Seconds()
+	// register lib specs, then the contract files of loaded packages
+	libs, _ := filepath.Glob(filepath.Join(r.verif, "lib", "*.spec"))
+	sort.Strings(libs)
+	for _, lf := range libs {
+		sf, err := ParseSpecFile(lf, "")
+		if err != nil {
+			return failHard(r, fmt.Sprintf("lib spec error: %v", err))
+		}
+		if err := eng.AddSpecFile(sf); err != nil {
+			return failHard(r, err.Error())
+		}
+	}
+	for _, p := range parsed {
+		pkgPath := eng.module + "/" + p.dir
+		if eng.typesPkgs[pkgPath] == nil {
+			continue
+		}
+		sf, err := ParseSpecFile(p.sf.Path, pkgPath)
+		if err != nil {
+			return failHard(r, err.Error())
+		}
+		if err := eng.AddSpecFile(sf); err != nil {
+			return failHard(r, err.Error())
+		}
+	}
+	// functions of this property
+	var cons []*Contract
+	for _, c := range eng.contracts {
+		if c.Extern || !contains(c.Props, r.prop) {
+			continue
+		}
+		if r.funcOnly != "" && !strings.Contains(c.FullKey, r.funcOnly) {
+			continue
+		}
+		cons = append(cons, c)
+	}
+	sort.Slice(cons, func(i, j int) bool { return cons[i].FullKey < cons[j].FullKey })
+
+	workDir := filepath.Join(r.verif, ".work", fmt.Sprintf("%s.%d", r.prop, os.Getpid()))
+	_ = os.MkdirAll(workDir, 0o755)
+	if !r.dump {
+		defer os.RemoveAll(workDir)
+	}
+
+	var verdicts []*Verdict
+	var texts []string
+	var funcErrs []string
+	funcs := []string{}
+	notes := map[string]bool{}
+	tGen0 := time.Now()
+	for _, c := range cons {
+		fr := eng.VerifyFunc(c)
+		sk := shortFunc(c.FullKey)
+		if fr.Err != nil {
+			funcErrs = append(funcErrs, fmt.Sprintf("%s: %v", sk, fr.Err))
+			continue
+		}
+		funcs = append(funcs, sk)
+		for n := range fr.Exec.notes {
+			notes[n] = true
+		}
+		for _, o := range fr.Obligs {
+			asserts := append([]*Term{}, fr.Exec.assumps[:o.NAssump]...)
+			asserts = append(asserts, o.Guard)
+			if !o.ExpectSat {
+				asserts = append(asserts, Not(o.Goal))
+			}
+			q := SMTQuery(asserts, nil, false)
+			name := r.prop + "/" + sk + "/" + o.Name
+			verdicts = append(verdicts, &Verdict{Name: name, Oblig: o, FuncKey: c.FullKey})
+			texts = append(texts, q)
+		}
+	}
+	// lemmas
+	for _, l := range eng.lemmas {
+		if !contains(l.Props, r.prop) || r.funcOnly != "" && !strings.Contains(l.Name, r.funcOnly) {
+			continue
+		}
+		q, err := eng.lemmaQuery(l)
+		name := r.prop + "/lemma:" + l.Name
+		if err != nil {
+			funcErrs = append(funcErrs, fmt.Sprintf("lemma %s: %v", l.Name, err))
+			continue
+		}
+		verdicts = append(verdicts, &Verdict{Name: name, Oblig: &Oblig{Name: "lemma:" + l.Name, Kind: "lemma", Where: l.Where}})
+		texts = append(texts, q)
+		funcs = append(funcs, "lemma:"+l.Name)
+	}
+	tGen := time.Since(tGen0).Seconds()
+
+	cfg := solveCfg{workDir: workDir, quickT: r.quickT, slowT: r.slowT, tier: r.tier, parallel: 14}
+	if r.tier == "thorough" {
+		cfg.slowT = 120
+		cfg.parallel = 5
+	}
+	tSolve0 := time.Now()
+	solveAll(cfg, verdicts, texts)
+	tSolve := time.Since(tSolve0).Seconds()
+
+	// expectations
+	expectPath := filepath.Join(r.verif, "obligations", r.prop+".expect")
+	expect, haveExpect := readExpect(expectPath)
+	known := readKnownFindings(filepath.Join(r.verif, "KNOWN_FINDINGS.txt"))
+	isKnown := func(name string) *knownFinding {
+		for i := range known {
+			if known[i].Prop == r.prop && known[i].Oblig == name {
+				return &known[i]
+			}
+		}
+		return nil
+	}
+
+	sort.Slice(verdicts, func(i, j int) bool { return verdicts[i].Name < verdicts[j].Name })
+	nObl, nDis, nCover := 0, 0, 0
+	var violations []string
+	var knownHit []string
+	seen := map[string]bool{}
+	solverTime := 0.0
+	bySolver := map[string]int{}
+	for _, v := range verdicts {
+		seen[v.Name] = true
+		solverTime += v.Secs
+		switch v.Status {
+		case "covered":
+			nCover++
+		case "vacuous":
+			violations = append(violations, v.Name)
+			fmt.Printf("VACUOUS %s: precondition/path is unsatisfiable\n", v.Name)
+		case "discharged":
+			nObl++
+			nDis++
+			bySolver[v.Solver]++
+		case "failed":
+			nObl++
+			if kf := isKnown(v.Name); kf != nil {
+				knownHit = append(knownHit, fmt.Sprintf("KNOWN-FINDING: property=%s %s — %s", r.prop, v.Name, kf.Text))
+				nObl--
+				continue
+			}
+			violations = append(violations, v.Name)
+		}
+		if r.verbose || v.Status == "failed" || v.Status == "vacuous" {
+			fmt.Printf("  %-10s %-8s %-7s %6.2fs %7dB %s  [%s]\n", v.Status, v.Answer, v.Solver, v.Secs, v.Size, v.Name, v.Oblig.Where)
+		}
+	}
+	var missing []string
+	if haveExpect && r.funcOnly == "" {
+		for n := range expect {
+			if !seen[n] {
+				missing = append(missing, n)
+			}
+		}
+		sort.Strings(missing)
+	}
+	for _, fe := range funcErrs {
+		fmt.Println("FUNCTION-ERROR", fe)
+	}
+
+	if r.update {
+		var lines []string
+		for _, v := range verdicts {
+			if v.Status == "discharged" || v.Status == "covered" {
+				lines = append(lines, v.Name)
+			}
+		}
+		_ = os.MkdirAll(filepath.Dir(expectPath), 0o755)
+		_ = os.WriteFile(expectPath, []byte(strings.Join(lines, "\n")+"\n"), 0o644)
+		fmt.Printf("wrote %s (%d obligations)\n", expectPath, len(lines))
+	}
+
+	// report
+	exit := 0
+	replayDir := filepath.Join(r.verif, "replay", r.prop)
+	emit := func(name, reason string, v *Verdict) {
+		_ = os.MkdirAll(replayDir, 0o755)
+		rp := filepath.Join(replayDir, sanitize(strings.TrimPrefix(name, r.prop+"/"))+".json")
+		rec := map[string]interface{}{"property": r.prop, "obligation": name, "reason": reason, "tier": r.tier}
+		suffix := " no-failing-input-found"
+		if v != nil {
+			rec["solver"] = v.Solver
+			rec["answer"] = v.Answer
+			rec["where"] = v.Oblig.Where
+			rec["detail"] = v.Detail
+			if v.Answer == "sat" {
+				m := getModel(v.File, 20)
+				rec["solver_output"] = truncate(m, 20000)
+				if ok, info := tryReplay(r, eng, v, m, rec); ok {
+					suffix = ""
+					rec["replay"] = info
+				} else if info != "" {
+					rec["replay_note"] = info
+				}
+			} else {
+				rec["solver_output"] = v.Answer
+			}
+		}
+		data, _ := json.MarshalIndent(rec, "", " ")
+		_ = os.WriteFile(rp, data, 0o644)
+		fmt.Printf("VIOLATION property=%s replay=%s obligation=%s (%s)%s\n", r.prop, rp, name, reason, suffix)
+		exit = 1
+	}
+	vmap := map[string]*Verdict{}
+	for _, v := range verdicts {
+		vmap[v.Name] = v
+	}
+	for _, n := range violations {
+		v := vmap[n]
+		reason := "obligation not discharged: " + v.Answer
+		if v.Status == "vacuous" {
+			reason = "vacuity: precondition or path unsatisfiable"
+		}
+		emit(n, reason, v)
+	}
+	for _, n := range missing {
+		if isKnown(n) != nil {
+			continue
+		}
+		emit(n, "expected obligation can no longer be generated (function/loop under contract changed or left the subset)", nil)
+	}
+	for _, fe := range funcErrs {
+		emit(r.prop+"/"+strings.SplitN(fe, ":", 2)[0]+"/generate", "function under contract cannot be verified: "+fe, nil)
+	}
+	for _, k := range knownHit {
+		fmt.Println(k)
+	}
+	if nObl == 0 && exit == 0 {
+		fmt.Println("error: zero obligations generated")
+		emit(r.prop+"/no-obligations", "zero obligations generated", nil)
+	}
+
+	// evidence
+	var assumptions, trusted []string
+	cat := map[string][]string{}
+	for n := range notes {
+		k := strings.SplitN(n, ":", 2)
+		cat[k[0]] = append(cat[k[0]], k[1])
+	}
+	for k := range cat {
+		sort.Strings(cat[k])
+	}
+	for _, x := range cat["extern"] {
+		assumptions = append(assumptions, "assumed contract of dependency: "+x)
+	}
+	for _, x := range cat["pure"] {
+		assumptions = append(assumptions, "pure observer (uninterpreted function of its arguments; object assumed immutable): "+x)
+	}
+	for _, x := range cat["havoc"] {
+		assumptions = append(assumptions, "unmodelled call, results arbitrary and heap forgotten: "+x)
+	}
+	if len(cat["ignore"]) > 0 {
+		assumptions = append(assumptions, "calls with no modelled effect (logging/locking/metrics): "+strings.Join(dedupShort(cat["ignore"]), ", "))
+	}
+	assumptions = append(assumptions,
+		"sequential semantics: goroutine interleavings are not explored; sync.Mutex operations are no-ops",
+		"machine integers are mathematical integers except in functions marked 'arith checked'",
+		"float64 is modelled as real; resource.Quantity is an exact real",
+		"append always yields a fresh backing array (no aliasing through append)",
+		"partial correctness: termination is not proved; implicit panics (nil/index) are assumed absent unless the function is marked nopanic")
+	trusted = append(trusted, "go/packages+go/types+go/ssa (x/tools v0.50.0, naive form)", "govc VC generator (/verif/engine)", "z3 5.1.0 / z3 4.8.12 / cvc5 1.0.3", "built-in library theory of /verif/engine/cmd/govc/theory.go (Quantity, ResourceList accessors, math, bits, sets, time)")
+	for _, lf := range libs {
+		trusted = append(trusted, "extern contracts in "+strings.TrimPrefix(lf, r.verif+"/"))
+	}
+	var samples []map[string]interface{}
+	for i, v := range verdicts {
+		if i%(len(verdicts)/6+1) == 0 {
+			samples = append(samples, map[string]interface{}{"obligation": v.Name, "status": v.Status, "solver": v.Solver, "secs": round3(v.Secs), "smt_bytes": v.Size, "where": v.Oblig.Where})
+		}
+	}
+	var obList []map[string]interface{}
+	for _, v := range verdicts {
+		obList = append(obList, map[string]interface{}{"name": v.Name, "status": v.Status, "answer": v.Answer, "solver": v.Solver, "secs": round3(v.Secs)})
+	}
+	ev := map[string]interface{}{
+		"property_id": r.prop,
+		"tier":        r.tier,
+		"seed":        r.seed,
+		"level":       "proof",
+		"coverage": map[string]interface{}{
+			"obligations":              nObl,
+			"discharged":               nDis,
+			"checker_cmd":              fmt.Sprintf("./check %s --tier %s", r.prop, r.tier),
+			"trusted_base":             trusted,
+			"functions_under_contract": funcs,
+			"cover_queries_sat":        nCover,
+			"by_solver":                bySolver,
+			"solver_time_s":            round3(solverTime),
+			"load_s":                   round3(tLoad),
+			"vcgen_s":                  round3(tGen),
+			"solve_wall_s":             round3(tSolve),
+			"inlined_helpers":          cat["inline"],
+			"callee_contracts_used":    cat["contract"],
+			"samples":                  samples,
+			"obligation_list":          obList,
+			"known_findings_hit":       knownHit,
+			"function_errors":          funcErrs,
+			"bounded":                  []string{},
+		},
+		"assumptions": assumptions,
+		"wall_s":      round3(time.Since(t0).Seconds()),
+		"violations":  len(violations) + len(missing) + len(funcErrs),
+	}
+	_ = os.MkdirAll(filepath.Join(r.verif, "evidence"), 0o755)
+	data, _ := json.MarshalIndent(ev, "", " ")
+	if r.funcOnly == "" {
+		_ = os.WriteFile(filepath.Join(r.verif, "evidence", r.prop+".json"), data, 0o644)
+	}
+	fmt.Printf("%s %s: %d functions, %d obligations, %d discharged, %d cover ok, %d violations, %d known; load %.1fs gen %.1fs solve %.1fs\n",
+		r.prop, r.tier, len(funcs), nObl, nDis, nCover, len(violations)+len(missing)+len(funcErrs), len(knownHit), tLoad, tGen, tSolve)
+	return exit
+}
+
+func dedupShort(xs []string) []string {
+	m := map[string]bool{}
+	for _, x := range xs {
+		m[shortFunc(x)] = true
+	}
+	return sortedKeys(m)
+}
+
+func round3(f float64) float64 { return float64(int64(f*1000+0.5)) / 1000 }
+
+func truncate(s string, n int) string {
+	if len(s) > n {
+		return s[:n] + "…"
+	}
+	return s
+}
+
+func failHard(r *propRun, msg string) int {
+	_ = os.MkdirAll(filepath.Join(r.verif, "replay", r.prop), 0o755)
+	rp := filepath.Join(r.verif, "replay", r.prop, "generate.json")
+	data, _ := json.MarshalIndent(map[string]interface{}{"property": r.prop, "obligation": r.prop + "/generate", "reason": msg}, "", " ")
+	_ = os.WriteFile(rp, data, 0o644)
+	fmt.Printf("VIOLATION property=%s replay=%s obligation=%s/generate (%s) no-failing-input-found\n", r.prop, rp, r.prop, strings.ReplaceAll(msg, "\n", " | "))
+	ev := map[string]interface{}{"property_id": r.prop, "tier": r.tier, "seed": r.seed, "level": "proof",
+		"coverage": map[string]interface{}{"obligations": 1, "discharged": 0, "checker_cmd": "./check " + r.prop, "trusted_base": []string{}, "explanation": msg},
+		"wall_s":   0.0, "violations": 1}
+	data, _ = json.MarshalIndent(ev, "", " ")
+	_ = os.MkdirAll(filepath.Join(r.verif, "evidence"), 0o755)
+	_ = os.WriteFile(filepath.Join(r.verif, "evidence", r.prop+".json"), data, 0o644)
+	return 1
+}
+
+// lemmaQuery builds the query for a lemma: axioms of the same file set plus the negated statement.
+func (e *Engine) lemmaQuery(l *Lemma) (q string, err error) {
+	ex := &Exec{eng: e, heapSrt: map[string]Sort{}, notes: map[string]bool{}, callOrd: map[string]int{}, ordinal: map[string]int{}, checked: map[string]bool{}}
+	st := &State{cells: map[*Cell]Val{}, heap: map[string]*Term{}, guard: True, wm: Sym("alloc0", SInt)}
+	ex.entry = st
+	defer func() {
+		if r := recover(); r != nil {
+			switch x := r.(type) {
+			case specErr:
+				err = fmt.Errorf("%s", x.msg)
+			case Unsupported:
+				err = fmt.Errorf("%s", x.msg)
+			default:
+				panic(r)
+			}
+		}
+	}()
+	env := ex.newEnv(l.PkgPath, st)
+	var asserts []*Term
+	for _, a := range e.axioms {
+		if a.PkgPath == l.PkgPath || a.PkgPath == "" {
+			asserts = append(asserts, ex.evalSpec(env, a.E).S())
+		}
+	}
+	goal := ex.evalSpec(env, l.E).S()
+	asserts = append(asserts, ex.assumps...)
+	asserts = append(asserts, Not(goal))
+	return SMTQuery(asserts, nil, false), nil
 }
